@@ -225,3 +225,40 @@ func (r *TLCResult) Tail(n int) string {
 	}
 	return strings.Join(lines, "\n")
 }
+
+// RunApalache runs one bounded check of apalache-mc on a module of the spec directory and
+// reports whether the outcome was NoError.
+func RunApalache(scratch, module string, args []string, timeout time.Duration) (ok bool, out string, err error) {
+	dir, err := os.MkdirTemp(scratch, "apalache-"+module+"-")
+	if err != nil {
+		return false, "", err
+	}
+	defer os.RemoveAll(dir)
+	ents, err := os.ReadDir(SpecDir)
+	if err != nil {
+		return false, "", err
+	}
+	for _, e := range ents {
+		if strings.HasSuffix(e.Name(), ".tla") {
+			b, err := os.ReadFile(filepath.Join(SpecDir, e.Name()))
+			if err != nil {
+				return false, "", err
+			}
+			if err := os.WriteFile(filepath.Join(dir, e.Name()), b, 0644); err != nil {
+				return false, "", err
+			}
+		}
+	}
+	ctx, cancel := context.WithTimeout(context.Background(), timeout)
+	defer cancel()
+	full := append([]string{"check", "--out-dir=" + filepath.Join(dir, "out")}, args...)
+	full = append(full, module+".tla")
+	cmd := exec.CommandContext(ctx, "apalache-mc", full...)
+	cmd.Dir = dir
+	var buf bytes.Buffer
+	cmd.Stdout = &buf
+	cmd.Stderr = &buf
+	cmd.Run()
+	out = buf.String()
+	return strings.Contains(out, "The outcome is: NoError"), out, nil
+}
